@@ -869,6 +869,12 @@ impl<'a> GeneratorState<'a> {
                             }
                         }
                         ExprType::Immediate(val) => {
+                            if !(-0xffff..=0xffff).contains(&val) {
+                                // The index becomes an offset added to the port and byte displacements
+                                return Err(self
+                                    .compiler_state
+                                    .syntax_error("Subscript out of range", pos));
+                            }
                             if v.var_type != VariableType::Char
                                 && v.var_type != VariableType::Short
                                 && v.var_const
